@@ -21,7 +21,7 @@ use vrp_core::construction::features::{
 use vrp_core::construction::heuristics::{InsertionContext, InsertionSuccess, UnassignmentInfo};
 use vrp_core::models::common::{Demand, Schedule, SingleDimLoad, TimeWindow};
 use vrp_core::models::problem::{
-    Actor, Job, JobPlaceBuilder, MultiBuilder, SimpleTransportCost, Single, SingleBuilder, VehicleBuilder,
+    Actor, Job, JobPlaceBuilder, MatrixData, MultiBuilder, Single, SingleBuilder, TransportCost, VehicleBuilder, create_matrix_transport_cost,
     VehicleDetailBuilder, VehicleIdDimension,
 };
 use vrp_core::models::solution::{Activity, Place as ActivityPlace};
@@ -74,15 +74,22 @@ pub struct Geo {
     pub dist: Metric,
     pub dur: Metric,
     pub dur_scale: i64,
+    /// asymmetric durations ("downhill is faster"): `duration(a, b) = metric + h(b) - h(a)` with the potential
+    /// `h = x / 2`; still integer, non-negative and satisfying the triangle inequality, but `d(a,b) != d(b,a)`
+    #[serde(default)]
+    pub tilt: bool,
 }
 
 impl Geo {
     pub fn distance(&self, a: usize, b: usize) -> f64 {
-        self.dist.between(self.coords[a], self.coords[b])
+        let base = self.dist.between(self.coords[a], self.coords[b]);
+        // (one-way streets: the same tilt as for durations, with the other sign)
+        if self.tilt { base + (self.coords[a].0 / 2 - self.coords[b].0 / 2) as f64 } else { base }
     }
 
     pub fn duration(&self, a: usize, b: usize) -> f64 {
-        self.dur.between(self.coords[a], self.coords[b]) * self.dur_scale as f64
+        let base = self.dur.between(self.coords[a], self.coords[b]) * self.dur_scale as f64;
+        if self.tilt { base + (self.coords[b].0 / 2 - self.coords[a].0 / 2) as f64 } else { base }
     }
 
     pub fn size(&self) -> usize {
@@ -465,7 +472,7 @@ fn build_single(idx: usize, task_idx: Option<usize>, task: &TaskSpec, value: Opt
     b.build().map_err(err)
 }
 
-fn build_goal(spec: &MicroSpec, transport: Arc<SimpleTransportCost>) -> Result<vrp_core::models::GoalContext, String> {
+fn build_goal(spec: &MicroSpec, transport: Arc<dyn TransportCost>) -> Result<vrp_core::models::GoalContext, String> {
     let transports = spec.layers.iter().filter(|l| matches!(l, Layer::Distance | Layer::Cost)).count();
     if transports != 1 {
         return Err("exactly one of the layers Distance / Cost is required".into());
@@ -517,7 +524,8 @@ impl Micro {
                 distances.push(spec.geo.distance(a, b));
             }
         }
-        let transport = Arc::new(SimpleTransportCost::new(durations, distances).map_err(err)?);
+        // the real matrix provider (what the formats use), not the test helper `SimpleTransportCost`
+        let transport = create_matrix_transport_cost(vec![MatrixData::new(0, None, durations, distances)]).map_err(err)?;
         let goal = build_goal(spec, transport.clone())?;
 
         let mut jobs = Vec::new();
@@ -711,7 +719,7 @@ fn gen_geo(rng: &mut Rng) -> Geo {
     } else {
         dist
     };
-    Geo { coords, dist, dur, dur_scale: *rng.pick(&[1, 1, 1, 2, 3]) }
+    Geo { coords, dist, dur, dur_scale: *rng.pick(&[1, 1, 1, 2, 3]), tilt: rng.chance(0.4) }
 }
 
 fn gen_vehicle(rng: &mut Rng, geo: &Geo, priced: bool) -> VehicleSpec {
